@@ -1109,10 +1109,10 @@ import tsgen
 def c20_cases(tier, seed):
     r = gen.Rng(seed)
     run = corpus_cases("C20") + fixture_cases(lambda c: c["tsx"])
-    for cid, src in tsgen.c20_products(tier):
+    for cid, src in tsgen.c20_products(tier) + tsgen.c20_nesting_products(tier):
         for rt in ([True, False] if (len(run) % 5 == 0) else [True]):
             run.append({"id": "%s|rt=%s" % (cid, rt), "src": src, "tsx": True, "opts": {"resolveType": rt}})
-    return [], run, {"rule": "TSX fixtures + product of binding provenance of `defineComponent` (vue named import, aliased, namespace member, other module, local function, global, shadowed by a parameter, vue's export imported under ANOTHER name next to another module's / a local function's / a local const's / a default import's `defineComponent`, self-alias and string-name specifiers, another vue export imported as defineComponent) x setup shapes (typed arrow, with SetupContext, untyped, function expression, non-function, object) x 20 options shapes (none, {}, each key explicit, string/shorthand/method/computed/getter spellings, spreads before/after, identifier, call, conditional, spread argument) x 10 declaration kinds (const/let/var/export/default export/assignment/bare/destructuring/wrapped/annotated); the full product in thorough, in quick the complete slices through the vue-named import plus a 6% sample of the rest; + spread first argument and member callee x options; resolveType on (and off for 1/5)",
+    return [], run, {"rule": "TSX fixtures + product of binding provenance of `defineComponent` (vue named import, aliased, namespace member, other module, local function, global, shadowed by a parameter, vue's export imported under ANOTHER name next to another module's / a local function's / a local const's / a default import's `defineComponent`, self-alias and string-name specifiers, another vue export imported as defineComponent) x setup shapes (typed arrow, with SetupContext, untyped, function expression, non-function, object) x 20 options shapes (none, {}, each key explicit, string/shorthand/method/computed/getter spellings, spreads before/after, identifier, call, conditional, spread argument) x 10 declaration kinds (const/let/var/export/default export/assignment/bare/destructuring/wrapped/annotated); the full product in thorough, in quick the complete slices through the vue-named import plus a 6% sample of the rest; + spread first argument and member callee x options; + SEVERAL calls: a Vue defineComponent call nested in another one's arguments (8 places: setup body in a statement / in an expression, `components` of the options, wrapper call, directly, spread, array, object component) x 6 inner shapes that receive nothing themselves x 7 statements holding the outer call, and a declaration whose call cannot take the inferred name (spread / non-function first argument, destructuring, another function, conditional, own name) followed by 5 kinds of later calls, at module level and in a function; resolveType on (and off for 1/5)",
                      "exhaustive": tier == "thorough", "exhaustive_part": "provenance x setup x options x declaration product"}
 
 
@@ -1721,13 +1721,16 @@ def generated_binding_collisions(out):
         return gen_lets
     def walk(n, frames):
         if isinstance(n, list):
-            if n and all(isinstance(x, dict) and str(x.get("type", "")).endswith(("Statement", "Declaration")) for x in n):
-                lets = stmt_list(n)
-                if lets:
-                    frames = frames + [(id(n), lets)]
             for x in n:
                 walk(x, frames)
         elif isinstance(n, dict):
+            # the statement lists: module / namespace body, block (function bodies, static blocks, loops, try ...), switch case
+            lst = n.get("body") if n.get("type") in ("Module", "Script", "TsModuleBlock") else n.get("stmts") if n.get("type") == "BlockStatement" else \
+                n.get("consequent") if n.get("type") == "SwitchCase" else None
+            if isinstance(lst, list):
+                lets = stmt_list(lst)
+                if lets:
+                    frames = frames + [(id(lst), lets)]
             if n.get("type") == "AssignmentExpression" and n.get("operator") == "=":
                 left = n.get("left") or {}
                 while left.get("type") == "ParenthesisExpression":
@@ -2011,8 +2014,8 @@ def ts_cases(pid, casefn, tier, seed, n_quick, n_thorough, extra=None, products=
 
 def c16_cases(tier, seed):
     run, hist = ts_cases("C16", tsgen.c16_case, tier, seed, 2500, 60000, tsgen.UNRESOLVABLE,
-                         products=tsgen.same_name_products(tsgen.C16_NAME_KINDS, tsgen.C16_PAYLOADS, True))
-    return [], run, {"rule": "TSX fixtures + %d generated calls: a random finite prop map (identifier / quoted / hyphenated keys; properties, methods, getters; optional flags) encoded by recursively partitioning and wrapping it with literal, alias (also exported), interface, merged interfaces, extends, intersection, parentheses, Partial, Required, Pick/Omit with literal-union keys (also through an alias), indexed access through alias/interface/literal, with every declaration placed before OR after the call (25%%) and the whole in module, function or block scope (shadowing); REUSE: one declaration (interface with extends, extends chain, sibling interfaces sharing a base, merged interface, alias) reached several times in one annotation through different Pick / Omit / Partial / Required views that partition the map; every 5th module holds 2-3 independently generated bodies in different scopes that declare the SAME names (sibling functions, shadowing before/after, nested, blocks); + 294 modules: one name declared in two scopes as every ordered pair of 7 declaration kinds x 6 arrangements; + 12 unresolvable / unsupported types that must be reported" % (len(run) - 12),
+                         products=tsgen.same_name_products(tsgen.C16_NAME_KINDS, tsgen.C16_PAYLOADS, True) + tsgen.extends_products(True, tier))
+    return [], run, {"rule": "TSX fixtures + %d generated calls: a random finite prop map (identifier / quoted / hyphenated keys; properties, methods, getters; optional flags) encoded by recursively partitioning and wrapping it with literal, alias (also exported), interface, merged interfaces, extends, intersection, parentheses, Partial, Required, Pick/Omit with literal-union keys (also through an alias), indexed access through alias/interface/literal, with every declaration placed before OR after the call (25%%) and the whole in module, function or block scope (shadowing); REUSE: one declaration (interface with extends, extends chain, sibling interfaces sharing a base, merged interface, alias) reached several times in one annotation through different Pick / Omit / Partial / Required views that partition the map; every 5th module holds 2-3 independently generated bodies in different scopes that declare the SAME names (sibling functions, shadowing before/after, nested, blocks); + 294 modules: one name declared in two scopes as every ordered pair of 7 declaration kinds x 6 arrangements; + `extends` products: the parent as every kind of declaration naming an object type (interface, alias of a literal / interface / intersection / alias / parenthesised type, interface with parents of its own, merged, exported) x 9 scope relations between parent, child interface and call (same list, enclosing list, module level before / after, nested functions, call in an inner block or method, sibling scope declaring the same name, inner redeclaration, parent after the child) x one parent / two parents / an intermediate interface x the child used directly / through an alias / in an intersection [sampled 1/4 in quick beyond the single-parent, direct-use slice]; + 12 unresolvable / unsupported types that must be reported" % (len(run) - 12),
                      "histogram": dict(hist.most_common(40))}
 
 
@@ -2023,15 +2026,15 @@ def c17_cases(tier, seed):
 
 
 def c18_cases(tier, seed):
-    run, hist = ts_cases("C18", tsgen.c18_case, tier, seed, 2500, 60000, products=tsgen.c18_products(tier))
-    return [], run, {"rule": "TSX fixtures + generated calls: random prop maps (incl. Function-typed props) x default objects mixing literal, expression, shorthand, getter, method, async method, quoted and computed-literal keys, extra keys, and the dynamic forms (identifier, spread, computed identifier key, computed expression key); + SEVERAL calls annotated with ONE named props type (interface, alias, extends, exported and declared after use): every ordered pair and sampled triples of 8 default kinds (static, none, identifier, spread, computed key, {}, getter/shorthand, call); python-side clauses: no `default` entry and no mergeDefaults without a written default, declarations handed to mergeDefaults carry no `default`",
+    run, hist = ts_cases("C18", tsgen.c18_case, tier, seed, 2500, 60000, products=tsgen.c18_products(tier) + tsgen.c18_spelling_products(tier))
+    return [], run, {"rule": "TSX fixtures + generated calls: random prop maps (incl. Function-typed props) x default objects mixing literal, expression, shorthand, getter, method, async method, quoted and computed-literal keys, extra keys, and the dynamic forms (identifier, spread, computed identifier key, computed expression key); + SEVERAL calls annotated with ONE named props type (interface, alias, extends, exported and declared after use): every ordered pair and sampled triples of 8 default kinds (static, none, identifier, spread, computed key, {}, getter/shorthand, call); + ONE prop declared under several spellings (`label`, `'label'`, `['label']`) brought together by intersection / union / merged interfaces / extends / aliases / Partial x 10 defaults (literal, quoted / computed key, factory, shorthand, getter, method, undefined, arrow, written twice) x 4 prop types x both orders; python-side clauses: no `default` entry and no mergeDefaults without a written default, declarations handed to mergeDefaults carry no `default`",
                      "histogram": dict(hist.most_common(40))}
 
 
 def c19_cases(tier, seed):
     run, hist = ts_cases("C19", tsgen.c19_case, tier, seed, 2500, 60000,
-                         products=tsgen.same_name_products(tsgen.C19_NAME_KINDS, tsgen.C19_PAYLOADS, False))
-    return [], run, {"rule": "TSX fixtures + generated calls: event-name sets (incl. names with `:` and `-`) encoded as function types, unions of function types, literal-union first parameters (also through an alias), call-signature literals, interfaces, extends chains, property syntax, aliases (also exported), intersections, declarations before or after the call; second parameter as identifier or destructuring pattern, with or without SetupContext; every 5th module holds 2-3 independently generated bodies in different scopes declaring the SAME alias / interface names; + 384 modules: one name declared in two scopes as every ordered pair of 8 declaration kinds (literal-union alias used by a function type / call signature / through another alias / through an interface, function-type alias, interface, interface with extends, property syntax) x 6 arrangements (sibling scopes, shadowing before / after, nested, declaration after use, three uses)",
+                         products=tsgen.same_name_products(tsgen.C19_NAME_KINDS, tsgen.C19_PAYLOADS, False) + tsgen.extends_products(False, tier))
+    return [], run, {"rule": "TSX fixtures + generated calls: event-name sets (incl. names with `:` and `-`) encoded as function types, unions of function types, literal-union first parameters (also through an alias), call-signature literals, interfaces, extends chains, property syntax, aliases (also exported), intersections, declarations before or after the call; second parameter as identifier or destructuring pattern, with or without SetupContext; every 5th module holds 2-3 independently generated bodies in different scopes declaring the SAME alias / interface names; + 384 modules: one name declared in two scopes as every ordered pair of 8 declaration kinds (literal-union alias used by a function type / call signature / through another alias / through an interface, function-type alias, interface, interface with extends, property syntax) x 6 arrangements (sibling scopes, shadowing before / after, nested, declaration after use, three uses); + `extends` products: the parent as every kind of declaration naming an object type (interface, alias of a literal / interface / intersection / alias / parenthesised type / function type, interface with parents of its own, merged, exported) x 9 scope relations between parent, child interface and call (same list, enclosing list, module level before / after, nested functions, call in an inner block or method, sibling scope declaring the same name, inner redeclaration, parent after the child) x one parent / two parents / an intermediate interface x the child used directly / through an alias / in an intersection / union [sampled 1/4 in quick beyond the single-parent, direct-use slice]",
                      "histogram": dict(hist.most_common(40))}
 
 
@@ -2122,7 +2125,7 @@ def c18_post(rec, c, r, d):
 
 PROPS["C16"] = {"theorems": ['C16_literal', 'C16_alias', 'C16_paren', 'C16_partial_required_flags', 'C16_partial_sets_optional', 'C16_pick_omit_partition', 'C16_required_iff_not_optional', 'C16_imported_type_reported', 'C16_unknown_global_reported', 'C16_unsupported_construct_reported', 'aliasHook_registers', 'C16_registry_from_whole_module', 'resolveElements_eq_members', 'propFold_mems', 'C16_grammar', 'C16_spec_registry_is_the_models', 'C16_merged_interface_keeps_extends', 'C16_interface_extends', 'C16_extends_parent_with_arguments', 'C16_extends_qualified_reported'], "cases": c16_cases, "nontrivial": _has_dc,
                 "explanation": "oracle: the set-theoretic meaning of the annotated props type over the WHOLE module's declarations (TypeSpec.propsOfType) = the keys and `required` flags of the injected props; a type outside the grammar must be reported"}
-PROPS["C17"] = {"theorems": ['C17_keyword_table', 'C17_structural_table', 'C17_literal_table', 'C17_builtin_class', 'C17_union_order', 'inferRuntime_eq_rt', 'rt_sound', 'C17_soundness', 'C17_emitted_no_stricter', 'C17_soundness_emitted', 'C17_null_kept', 'C17_boolean_string_order'], "cases": c17_cases, "nontrivial": _has_dc,
+PROPS["C17"] = {"theorems": ['C17_keyword_table', 'C17_structural_table', 'C17_literal_table', 'C17_builtin_class', 'C17_union_order', 'inferRuntime_eq_rt', 'rt_sound', 'C17_soundness', 'C17_emitted_no_stricter', 'C17_soundness_emitted', 'C17_null_kept', 'C17_boolean_string_order', 'C17_object_like_never_empty', 'C17_empty_object_literal', 'C17_interface_own_members', 'C17_interface_extends_only'], "cases": c17_cases, "nontrivial": _has_dc,
                 "explanation": "oracle: the JavaScript constructors of the declared type (TypeSpec.ctorsOfType; any/unknown = no check) = those of the emitted `type`, Boolean/String order kept"}
 PROPS["C18"] = {"theorems": ['C18_literal_as_is', 'C18_expression_through_factory', 'C18_function_prop_gets_value', 'C18_function_prop_gets_written_function', 'C18_shorthand', 'C18_getter', 'C18_method_is_the_function', 'C18_key_spellings_match', 'C18_dynamic_forms', 'C18_one_dynamic_entry_suffices', 'C18_dynamic_goes_through_mergeDefaults', 'C18_no_default_no_entry'], "cases": c18_cases, "post": c18_post, "nontrivial": _has_dc,
                 "explanation": "oracle: every statically written default reaches its prop's `default` as the value itself (literals, methods, Function-typed props) or as a factory returning it; non-analysable defaults go through mergeDefaults unchanged"}
